@@ -7,6 +7,7 @@ mod ops;
 mod programs;
 mod props;
 mod rng;
+mod sched;
 mod world;
 
 use framework::{check_main, replay_main, worker_main, Tier};
